@@ -54,8 +54,9 @@ def coq_sx(x):
     return "L [" + "; ".join(coq_sx(y) for y in x) + "]"
 
 
-def model_run(engine_id, cases, chunk=None):
-    """Run the extracted model on a list of cases (nested int lists); returns nested int lists."""
+def model_run(engine_id, cases, raw=False):
+    """Run the extracted model on a list of cases (nested int lists); returns nested int lists
+    (or the raw sx text lines when raw=True)."""
     if not cases:
         return []
     data = "\n".join(f"{engine_id:x} {sx_dump(c)}" for c in cases) + "\n"
@@ -66,18 +67,18 @@ def model_run(engine_id, cases, chunk=None):
     lines = p.stdout.decode().splitlines()
     if len(lines) != len(cases):
         raise RuntimeError(f"model driver returned {len(lines)} lines for {len(cases)} cases")
-    return [sx_load(l) for l in lines]
+    return lines if raw else [sx_load(l) for l in lines]
 
 
-def model_run_parallel(engine_id, cases, jobs=16):
+def model_run_parallel(engine_id, cases, jobs=16, raw=False):
     """Same, split over several driver processes."""
     if len(cases) < 64:
-        return model_run(engine_id, cases)
+        return model_run(engine_id, cases, raw)
     from concurrent.futures import ThreadPoolExecutor
     k = min(jobs, max(1, len(cases) // 16))
     parts = [cases[i::k] for i in range(k)]
     with ThreadPoolExecutor(k) as ex:
-        res = list(ex.map(lambda p: model_run(engine_id, p), parts))
+        res = list(ex.map(lambda p: model_run(engine_id, p, raw), parts))
     out = [None] * len(cases)
     for i, part in enumerate(res):
         out[i::k] = part
